@@ -13,10 +13,11 @@ import (
 )
 
 type Term struct {
-	Op   string // "" => atom
-	Atom string
-	Args []*Term
-	str  string
+	Op    string // "" => atom
+	Atom  string
+	Args  []*Term
+	str   string
+	QVars [][2]string // bound variables of a quantifier term
 }
 
 func (t *Term) String() string {
@@ -340,7 +341,7 @@ func quant(q string, vars [][2]string, body *Term, pats [][]*Term) *Term {
 		sb.WriteString(body.String())
 	}
 	sb.WriteString(")")
-	return &Term{Op: q, Atom: "", Args: []*Term{body}, str: sb.String()}
+	return &Term{Op: q, Atom: "", Args: []*Term{body}, str: sb.String(), QVars: vars}
 }
 
 // subst replaces atoms by name.
@@ -390,4 +391,38 @@ func smtName(s string) string {
 		}
 	}
 	return sb.String()
+}
+
+// splitGoal decomposes a goal into conjuncts that are jointly equivalent to it:
+// (and a b) -> a, b;  (=> g (and a b)) -> (=> g a), (=> g b);  (forall x (and a b)) -> (forall x a), (forall x b).
+func splitGoal(t *Term) []*Term {
+	switch {
+	case t.Op == "and":
+		var out []*Term
+		for _, a := range t.Args {
+			out = append(out, splitGoal(a)...)
+		}
+		return out
+	case t.Op == "=>" && len(t.Args) == 2:
+		parts := splitGoal(t.Args[1])
+		if len(parts) == 1 {
+			return []*Term{t}
+		}
+		var out []*Term
+		for _, p := range parts {
+			out = append(out, App("=>", t.Args[0], p))
+		}
+		return out
+	case t.Op == "forall" && len(t.QVars) > 0 && len(t.Args) == 1:
+		parts := splitGoal(t.Args[0])
+		if len(parts) == 1 {
+			return []*Term{t}
+		}
+		var out []*Term
+		for _, p := range parts {
+			out = append(out, Forall(t.QVars, p))
+		}
+		return out
+	}
+	return []*Term{t}
 }
